@@ -45,6 +45,66 @@ impl Clone for Summary {
     #[verifier::external_body]
     fn clone(&self) -> (r: Summary) ensures r == *self, { unimplemented!() }
 }
+impl Summary {
+    /// the bits of the `flags` field
+    pub uninterp spec fn sflags(&self) -> u64;
+    /// vault.rs:273 `Summary::flags`: `&self.flags`
+    #[verifier::external_body]
+    pub fn flags(&self) -> (r: &VaultFlags)
+        ensures r.b == self.sflags(),
+    { unimplemented!() }
+    /// the summary of an archive folder (`VaultFlags::ARCHIVE` = 0b100, crates/core/src/lib.rs:123)
+    pub open spec fn archived(&self) -> bool { self.sflags() & 4 == 4 }
+}
+impl VaultFlags {
+    /// crates/core/src/lib.rs:167 `self.contains(VaultFlags::ARCHIVE)` (bitflags `contains`: all bits of `other`
+    /// set, as `VaultFlags::contains` of prelude/types.rs)
+    #[verifier::external_body]
+    pub fn is_archive(&self) -> (r: bool)
+        ensures r == (self.b & 4 == 4),
+    { unimplemented!() }
+}
+/// the account's archive folder: the FIRST folder of the list whose flags say archive, if any
+pub open spec fn account_archive(s: Seq<Summary>) -> Option<Seq<u8>>
+    decreases s.len(),
+{
+    if s.len() == 0 { None } else if s[0].archived() { Some(s[0].sid()) } else { account_archive(s.drop_first()) }
+}
+/// `a` is the id of the first folder of the list whose flags say archive / there is none
+pub open spec fn first_archive(s: Seq<Summary>, a: Option<Seq<u8>>) -> bool {
+    match a {
+        Some(id) => exists|i: int| 0 <= i < s.len() && (#[trigger] s[i]).archived() && s[i].sid() == id && forall|j: int| 0 <= j < i ==> !(#[trigger] s[j]).archived(),
+        None => forall|j: int| 0 <= j < s.len() ==> !(#[trigger] s[j]).archived(),
+    }
+}
+pub proof fn lemma_first_archive(s: Seq<Summary>, a: Option<Seq<u8>>)
+    ensures first_archive(s, a) ==> account_archive(s) == a,
+{
+    if first_archive(s, a) {
+        match a {
+            Some(id) => {
+                let i = choose|i: int| 0 <= i < s.len() && (#[trigger] s[i]).archived() && s[i].sid() == id && forall|j: int| 0 <= j < i ==> !(#[trigger] s[j]).archived();
+                lemma_account_archive(s, i);
+            }
+            None => { lemma_account_archive(s, s.len() as int); }
+        }
+    }
+}
+pub proof fn lemma_account_archive(s: Seq<Summary>, i: int)
+    requires 0 <= i <= s.len(), forall|j: int| 0 <= j < i ==> !(#[trigger] s[j]).archived(),
+    ensures
+        i < s.len() && s[i].archived() ==> account_archive(s) == Some(s[i].sid()),
+        i == s.len() ==> account_archive(s) is None,
+    decreases s.len(),
+{
+    if s.len() > 0 && i > 0 {
+        assert(!s[0].archived());
+        let t = s.drop_first();
+        assert forall|j: int| 0 <= j < i - 1 implies !(#[trigger] t[j]).archived() by { assert(t[j] == s[j + 1]); }
+        lemma_account_archive(t, i - 1);
+        if i < s.len() { assert(t[i - 1] == s[i]); }
+    }
+}
 
 // ---- std::collections::HashMap<VaultId, Folder> --------------------------------------------
 /// std `HashMap` (library/std/src/collections/hash/map.rs); view: map from key VIEWS to values
@@ -162,6 +222,13 @@ pub trait ClientFolderStorage: ClientBaseStorage {
     fn folders_mut(&mut self) -> (r: &mut HashMap<VaultId, Folder>)
         ensures r@ == old(self).fmap(), final(self).fmap() == final(r)@, final(self).idx() == old(self).idx(),
             final(self).summ() == old(self).summ(), final(self).stored() == old(self).stored();
+    /// traits.rs:267 `fn list_folders(&self) -> &[Summary] { self.summaries(Internal).as_slice() }`.  R9: the slice
+    /// is handed out as a snapshot that is not tied to the borrow of `self` — in the real code it is, and
+    /// the search index can still be written while it is held (`initialize_search_index`) because the index
+    /// sits behind its own `Arc<RwLock<..>>`; here the index is lent from `&mut self` (see `search_index`),
+    /// which the borrow checker would refuse while a `&self` slice is alive.
+    fn list_folders(&self) -> (r: &'static [Summary])
+        ensures r@ == self.summ();
     /// traits.rs:272
     fn current_folder(&self) -> (r: Option<Summary>);
     /// traits.rs:287 `self.summaries(Internal).iter().find(predicate)`: `Iterator::find` returns an
@@ -358,6 +425,18 @@ pub fn append_audit_events(events: &[AuditEvent]) -> (r: BkResult<()>) { unimple
 #[verifier::external_body]
 pub fn vdrain<T>(v: &mut Vec<T>) -> (r: Vec<T>)
     ensures r@ == old(v)@, final(v)@.len() == 0,
+{ unimplemented!() }
+/// `<[T]>::to_vec` (alloc/src/slice.rs): "Copies `self` into a new `Vec`" — every element cloned, in order
+pub assume_specification<T: Clone> [<[T]>::to_vec] (s: &[T]) -> (r: Vec<T>)
+    ensures r@.len() == s@.len(), forall|i: int| 0 <= i < s@.len() ==> call_ensures(T::clone, (&s@[i],), #[trigger] r@[i]);
+/// R12: `for (k, v) in &$m` on a `HashMap` (`hash_map::Iter`: "An iterator visiting all key-value pairs in
+/// arbitrary order", every entry exactly once) is rewritten to `for (k, v) in it: vpairs(&$m)`
+#[verifier::external_body]
+pub fn vpairs<K: View, V>(m: &HashMap<K, V>) -> (r: Vec<(&K, &V)>)
+    ensures
+        forall|i: int| 0 <= i < r@.len() ==> m@.contains_key((#[trigger] r@[i]).0@) && m@[r@[i].0@] == *r@[i].1,
+        forall|i: int, j: int| 0 <= i < j < r@.len() ==> (#[trigger] r@[i]).0@ != (#[trigger] r@[j]).0@,
+        forall|k: K::V| #[trigger] m@.contains_key(k) ==> exists|i: int| 0 <= i < r@.len() && (#[trigger] r@[i]).0@ == k,
 { unimplemented!() }
 /// `impl<T: Clone> ToOwned for [T]` (alloc/src/slice.rs): `to_owned` = `to_vec`, the same elements
 pub assume_specification<T: Clone> [<[T] as std::borrow::ToOwned>::to_owned] (s: &[T]) -> (r: Vec<T>)
